@@ -3,10 +3,18 @@ from checks import wire_checks
 
 LEVEL = "proof"
 MANIFEST = dict(
-    text="Per-layer reparse theorems (codec inverses) for the modelled layers + model/implementation correspondence of parse, serialize, re-parse and second serialization; view equality is checked by the Lean oracle on the implementation's own field dumps for every class with a dump.",
-    note="Proof covers the Lean models of the classes listed in the evidence (modelled_classes) and the generic backbone; "
-         "the tie is differential correspondence under sanitizers; unmodelled classes get the implementation-side oracle only. "
-         "Trusted: Lean kernel + standard axioms, hand-written models, harness, generators, translator/gen_tags.py.",
+    text="Lean 4: per-class reparse theorems (parse of what write_serialization wrote gives the same view back, TLV / option list round trips by "
+         "induction) for all seven families; the whole-packet theorem l2_whole_packet_c03 (any accepted link-layer stack of any depth: "
+         "serialize, re-parse, same views up to derived fields and minimum-frame padding, second serialization a fixed point) by induction over the "
+         "stack and the generated next-protocol tables. Correspondence of parse, serialize, re-parse and second serialization for every class; "
+         "view equality is checked by the Lean oracle on the implementation's own field dumps.",
+    note="The theorems are about hand-written, code-shaped Lean models of 53 entry classes in seven families (link layers, IPv4 + options / AH / ESP, "
+         "IPv6 + extension headers, TCP + options / UDP, ICMP / ICMPv6 + extensions, DHCP / DHCPv6 / BootP / RTP / VXLAN / ARP / STP, 802.11 / "
+         "RadioTap / EAPOL; list in the evidence: modelled_classes); the tie to the C++ is differential correspondence of every line under "
+         "ASan/UBSan/LSan plus the Lean spec oracle evaluated on the implementation's own output; DNS as an entry class and the paths "
+         "the model cannot express (host routing table in IP::prepare_for_serialize, EAPOL null result) get the implementation-side oracle "
+         "only (evidence: unmodelled_lines). Trusted: Lean kernel + propext/Classical.choice/Quot.sound, the models, harness, generators, "
+         "translator/gen_tags.py; allocator / lifetime behaviour is observed by the sanitizers, not proved.",
     technique="Lean 4 proof over executable byte-level models + model/impl correspondence + spec oracle on impl output",
     design="DESIGN.md §6 C03")
 
